@@ -1,34 +1,21 @@
-"""Per-property wiring for bin/check: which spec/cfg files are used in which TLC role, which driver
-family records the traces, and what counts as an interesting (non-trivial) script."""
+"""Per-property wiring for bin/check: collected from bin/props.d/<family>.py, each defining PROPS = {id: {...}}.
 
-ORACLE_ASSUME = [
-    "OWASM execution itself is trusted: only its SUCCESS/FAILURE outcome is modelled",
-    "L1 handler layer: messages go through app.MsgServiceRouter() on a branched context; signatures/ante handlers are not exercised",
-    "all validators stay bonded for the whole history of this family",
-]
+Keys of a property entry:
+  mc      list of {tla, cfg, tier: quick|thorough, timeout, workers?, extra?}  exhaustive TLC runs of the spec
+  gen     optional {tla, cfg, depth, num: {quick, thorough}, timeout}         tlc -simulate writing scripts to $GEN_OUT
+  drive   {family, mode?, nrand: {quick, thorough}, timeout?}                  vdrive sub-command recording the traces
+  trace   {tla, cfg, steps_per_line?, java_opts?, timeout?}                    trace-validation spec (cfg has TraceFile = "...")
+  rule    text: how scripts are generated and what makes one non-trivial
+  assumptions  list of text
+  level   evidence level (default model_checking)
+  min_interesting  vacuity guard (default 2)
+  custom  optional module name in bin/ with run(pid, prop, tier, seed, args, check_module, workdir) for special flows
+"""
+import glob, os, importlib.util
 
-PROPS = {
-    "C01": dict(
-        mc=[dict(tla="Oracle_MC.tla", cfg="Oracle_MC.cfg", tier="quick", timeout=300),
-            dict(tla="Oracle_MC.tla", cfg="Oracle_MC_exp.cfg", tier="thorough", timeout=1500),
-            dict(tla="Oracle_MC.tla", cfg="Oracle_MC_3req.cfg", tier="thorough", timeout=1500),
-            dict(tla="Oracle_MC.tla", cfg="Oracle_MC_live.cfg", tier="thorough", timeout=1500)],
-        gen=dict(tla="Oracle_Gen.tla", cfg="Oracle_Gen.cfg", depth=24, num=dict(quick=300, thorough=4000), timeout=900),
-        drive=dict(family="oracle", nrand=dict(quick=300, thorough=6000)),
-        trace=dict(tla="Oracle_Trace.tla", cfg="Oracle_Trace_C01.cfg"),
-        rule="scripts = TLC -simulate walks of Oracle.tla (role-relative) + seeded random scripts; a script is "
-             "non-trivial if its recorded trace contains a rejected report or an EndBlock that resolves or expires a "
-             "request; distinct = SHA-256 of the abstract script",
-        assumptions=ORACLE_ASSUME,
-    ),
-    "C15": dict(
-        mc=[dict(tla="Oracle_MC.tla", cfg="Oracle_MC_C15.cfg", tier="quick", timeout=300),
-            dict(tla="Oracle_MC.tla", cfg="Oracle_MC_C15_deep.cfg", tier="thorough", timeout=1500)],
-        gen=dict(tla="Oracle_Gen.tla", cfg="Oracle_Gen_C15.cfg", depth=24, num=dict(quick=300, thorough=4000), timeout=900),
-        drive=dict(family="oracle", mode="c15", nrand=dict(quick=300, thorough=6000)),
-        trace=dict(tla="Oracle_Trace.tla", cfg="Oracle_Trace_C15.cfg"),
-        rule="as C01, scripts biased to (re)activation and slow/equal block times; non-trivial = the trace contains a "
-             "deactivation, a rejected activation, or an expiry",
-        assumptions=ORACLE_ASSUME,
-    ),
-}
+PROPS = {}
+for _f in sorted(glob.glob(os.path.join(os.path.dirname(os.path.abspath(__file__)), "props.d", "*.py"))):
+    _spec = importlib.util.spec_from_file_location("props_" + os.path.basename(_f)[:-3], _f)
+    _m = importlib.util.module_from_spec(_spec)
+    _spec.loader.exec_module(_m)
+    PROPS.update(_m.PROPS)
